@@ -172,7 +172,17 @@ func genCase(t *rapid.T) Case {
 	}
 	if c.Op == "prune" && c.Backend != "s3" && n > 0 && rapid.IntRange(0, 2).Draw(t, "uploading") == 0 {
 		for i, k := 0, rapid.IntRange(1, 3).Draw(t, "uploads"); i < k; i++ {
-			c.Uploads = append(c.Uploads, Upload{Ref: rapid.IntRange(0, n-1).Draw(t, "uref"), Block: rapid.IntRange(0, 2).Draw(t, "ublock") > 0})
+			u := Upload{Ref: rapid.IntRange(0, n-1).Draw(t, "uref"), Block: rapid.IntRange(0, 2).Draw(t, "ublock") > 0}
+			if u.Block { // the rename can only be blocked where no own-format file lies yet: prefer such a chunk
+				for d := 0; d < n; d++ {
+					s := c.Chunks[(u.Ref+d)%n]
+					if (c.Uncompressed && s.U == 0) || (!c.Uncompressed && s.C == 0) {
+						u.Ref = (u.Ref + d) % n
+						break
+					}
+				}
+			}
+			c.Uploads = append(c.Uploads, u)
 		}
 	}
 	if drawCLI(t) {
@@ -534,6 +544,7 @@ func run(c Case) (o hx.Outcome) {
 	// an abandoned temporary chunk file by provenance
 	uploadsOK, uploadsFailed := 0, 0
 	var uploadViolations []string
+	var before snap
 	if len(c.Uploads) > 0 {
 		d := be.(*dirBackend)
 		pre := be.snapshot()
@@ -565,9 +576,9 @@ func run(c Case) (o hx.Outcome) {
 				}
 			}
 		}
-		post := be.snapshot()
+		before = be.snapshot()
 		v.born = map[string]bool{}
-		for k := range post {
+		for k := range before {
 			if _, was := pre[k]; !was {
 				if cl := v.classOf(k); cl.Kind != kOwn && cl.Kind != kOther {
 					v.born[k] = true
@@ -575,7 +586,9 @@ func run(c Case) (o hx.Outcome) {
 			}
 		}
 	}
-	before := be.snapshot()
+	if before == nil {
+		before = be.snapshot()
+	}
 
 	// census of the populated store
 	count := map[string]int{}
@@ -871,7 +884,7 @@ var spec = &hx.Spec[Case]{
 	Level: "exploration",
 	Rule: "cases = store content over <=12 chunk IDs (per ID and format: absent/valid/5 kinds of invalid) + junk, temp-file names, chunk-like names in wrong places, IDs outside the universe, " +
 		"keep-set none/all/subset/+absent IDs, backend local | s3 (fake, with/without key prefix, paged listing, scripted DELETE/LIST faults) | sftp (fake ssh, 2 sessions), compressed/uncompressed mode, " +
-		"op = Prune or LocalStore.Verify(n in 1..16, repair on/off); non-trivial prune = both formats present and >=1 unreferenced own-format chunk and >=1 junk/temp/misplaced file; " +
+		"op = Prune (local/sftp: optionally after 1..3 real StoreChunk calls, some with a blocked final rename) or LocalStore.Verify(n in 1..16, repair on/off); non-trivial prune = both formats present and >=1 unreferenced own-format chunk and >=1 junk/temp/misplaced file; " +
 		"non-trivial verify = both formats present and >=1 invalid and >=1 valid own-format chunk; distinct by (backend, mode, op, per-ID states, extras, keep, n, repair, fault)",
 	Assumptions: []string{
 		"a chunk file is <4 hex>/<64 hex>[.cacnk] (lower case) whose directory equals the first 4 digits; anything else is not a chunk file",
@@ -879,6 +892,7 @@ var spec = &hx.Spec[Case]{
 		"content validity judged with crypto/sha512 and an own zstd decoder instance (klauspost)",
 		"S3 = in-process fake (internal/fakes3), SFTP = pkg/sftp server over stdio (internal/fakessh) on a scratch directory, N=2 sessions (N=1 deadlocks in Prune: outside the statement)",
 		"Verify exists for LocalStore only; Verify's findings are read from the 'chunk id <id> does not match its hash' lines on its writer",
+		"real uploads: StoreChunk through the store under test, the final rename made to fail by a non-empty directory at the chunk's name (removed again before the prune); every non-chunk file such a call leaves behind counts as an abandoned temporary chunk file whatever its name",
 	},
 	Required: []string{
 		"backend:local", "backend:s3", "backend:s3-prefix", "backend:sftp",
@@ -888,6 +902,8 @@ var spec = &hx.Spec[Case]{
 		"prune:ok:local", "prune:ok:s3", "prune:ok:sftp", "prune:error:local", "prune:error:s3", "prune:error:sftp", "prune:some-kept-some-dropped",
 		"s3:fault-delivered", "s3:paged-listing", "verify:repair", "verify:no-repair", "verify:n>1", "verify:reported>0",
 		"nontrivial:local:prune", "nontrivial:local:verify", "nontrivial:s3:prune", "nontrivial:s3-prefix:prune", "nontrivial:sftp:prune",
+		"local:upload:ok", "sftp:upload:ok", "local:abandoned-tempfile:real-upload", "sftp:abandoned-tempfile:real-upload",
+		"local:abandoned-tempfile:real-upload:prune-ok", "sftp:abandoned-tempfile:real-upload:prune-ok",
 	},
 	Gen:     genCase,
 	Run:     run,
@@ -1073,8 +1089,11 @@ func TestSelf(t *testing.T) {
 // paths x referenced or not, each with one junk file, one temp file of each kind and one
 // misplaced chunk name; and every Verify configuration on the same stores.
 func TestEnum(t *testing.T) {
-	if hx.Shard() != 0 {
-		t.Skip()
+	// the grid is spread over the shards (every shard runs its residue class)
+	turn := 0
+	mine := func() bool {
+		turn++
+		return turn%hx.Shards() == hx.Shard()
 	}
 	defer closeSFTP()
 	extras := []Extra{
@@ -1102,6 +1121,9 @@ func TestEnum(t *testing.T) {
 							}
 							c := Case{Backend: b.name, Prefix: b.prefix, Uncompressed: unc, Op: "prune",
 								Chunks: []ChunkSpec{{Seed: 12, Len: 40, C: cs, U: us, Keep: keep}}, Extras: ex, KeepGhost: []int{2, 3}}
+							if !mine() {
+								continue
+							}
 							if !hx.Case(t, spec, c) {
 								return
 							}
@@ -1114,6 +1136,9 @@ func TestEnum(t *testing.T) {
 						for _, repair := range []bool{false, true} {
 							c := Case{Backend: "local", Uncompressed: unc, Op: "verify", N: n, Repair: repair,
 								Chunks: []ChunkSpec{{Seed: 12, Len: 40, C: cs, U: us}, {Seed: 13, Len: 9, C: 1, U: 1}}, Extras: extras}
+							if !mine() {
+								continue
+							}
 							if !hx.Case(t, spec, c) {
 								return
 							}
